@@ -47,6 +47,10 @@ def lookupPure (t : List (List Nat × List Nat)) (k : List Nat) : List Nat :=
 def tableEnc (t : List (List Nat × List Nat)) : Str → Except PyExc Bytes :=
   encodeBy (fun c => if c < 128 then .ok [c] else lookupExc t [c])
 
+/-- the logged stdlib joins: key = base ++ [sep] ++ url ++ [sep, af] -/
+def joinTable (t : List (List Nat × List Nat)) (af : Bool) (base url : Str) : Except PyExc Str :=
+  lookupExc t (base ++ [missingMark] ++ url ++ [missingMark, if af then 1 else 0])
+
 def decDs (s : String) : Option (Option Str) :=
   if s == "None" then some none
   else if s.startsWith "=" then (decList? (s.drop 1).toString).map some
@@ -125,14 +129,30 @@ def handle : List String → String
       | .ok none => "none"
       | .error e => "exc " ++ e.name
     | _, _ => "bad-arg"
-  | ["join", base, u, joinT] =>
+  | ["join", af, base, u, joinT] =>
     match decList? base, decList? u, decLists? joinT with
     | some base, some u, some t =>
-      match urljoinSafe (fun _ x => lookupExc (pairs t) x) base u with
+      match urljoinSafe (joinTable (pairs t)) (af == "T") base u with
       | .ok (some r) => "some " ++ encList r
       | .ok none => "none"
       | .error e => "exc " ++ e.name
     | _, _, _ => "bad-arg"
+  | ["htmljoin", page, hrefs, codebase, link, joinT] =>
+    -- hrefs: list of <base href> values; codebase: None | =<str>
+    match decList? page, decLists? hrefs, decDs codebase, decList? link, decLists? joinT with
+    | some page, some hrefs, some cb, some link, some t =>
+      let sj := joinTable (pairs t)
+      match docBase sj page hrefs none with
+      | .error e => "exc " ++ e.name
+      | .ok doc =>
+        match elementBase sj page doc cb with
+        | .error e => "exc " ++ e.name
+        | .ok b =>
+          match joinOnBase sj b link with
+          | .ok (some r) => "base " ++ encOpt b ++ " some " ++ encList r
+          | .ok none => "base " ++ encOpt b ++ " none"
+          | .error e => "base " ++ encOpt b ++ " exc " ++ e.name
+    | _, _, _, _, _ => "bad-arg"
   | ["int", base, t] =>
     match base.toNat?, decList? t with
     | some b, some t =>
